@@ -90,8 +90,33 @@ def check_validation(report):
     MD = f"self.all_methods.get({SEL})"
     RQ = f"self.messages[{MD}.input_type.lstrip('.')]"
 
+    class _GetToItem(ast.NodeTransformer):
+        """<m>.fields.get(k) -> <m>.fields[k]  (one spelling for the looked-up field)"""
+        def visit_Call(self, n):
+            self.generic_visit(n)
+            if isinstance(n.func, ast.Attribute) and n.func.attr == "get" and len(n.args) in (1, 2) and not n.keywords \
+                    and isinstance(n.func.value, ast.Attribute) and n.func.value.attr == "fields" \
+                    and (len(n.args) == 1 or (isinstance(n.args[1], ast.Constant) and n.args[1].value is None)):
+                return ast.Subscript(value=n.func.value, slice=n.args[0], ctx=ast.Load())
+            return n
+
     def canon(f):
-        return (f[0].replace("wrappers.", ""), f[1]) if f[0] != "for" else f
+        if f[0] == "for":
+            return f
+        src, pol = f[0].replace("wrappers.", ""), f[1]
+        if ".fields.get(" in src and not src.startswith(("OR(", "AND(")):
+            try:
+                e = _GetToItem().visit(ast.parse(src, mode="eval").body)
+                # `<m>.fields[k] is None` (the .get came back empty)  ==  `k not in <m>.fields`;  bare truthiness of the looked-up field likewise
+                if isinstance(e, ast.Compare) and len(e.ops) == 1 and isinstance(e.ops[0], ast.Is) and isinstance(e.comparators[0], ast.Constant) \
+                        and e.comparators[0].value is None and isinstance(e.left, ast.Subscript):
+                    return (f"{ast.unparse(e.left.slice)} in {ast.unparse(e.left.value)}", not pol)
+                if isinstance(e, ast.Subscript) and isinstance(e.value, ast.Attribute) and e.value.attr == "fields":
+                    return (f"{ast.unparse(e.slice)} in {ast.unparse(e.value)}", pol)
+                src = ast.unparse(e)
+            except SyntaxError:
+                pass
+        return (src, pol)
 
     facts = [({canon(g) for g in guards}, st) for guards, st, _ in records]
 
@@ -197,7 +222,26 @@ def request_writers(sk, fn):
 def check_population(report, lib: Lib):
     r2 = report.rule("C18.2", "population block: presence-aware test, `request.<f> = str(uuid.uuid4())`, same field, no other writer", floor=6)
     r3 = report.rule("C18.3", "the population block dominates the rpc call (sync and asyncio clients)", floor=6)
-    shape = {SET + " is none": False, "LOOP:" + SET + ".auto_populated_fields": 1, M + ".client_streaming": False, M + ".server_streaming": False}
+    # the macro may look the settings up as `settings.get(key)` + `is not none`, or as `key in settings` + `settings[key]`
+    KEY = M + ".meta.address.proto"
+    spellings = (
+        ("api.all_method_settings.get(" + KEY + ")", lambda present: {"api.all_method_settings.get(" + KEY + ") is none": not present}),
+        ("api.all_method_settings[" + KEY + "]", lambda present: {KEY + " in api.all_method_settings": present}),
+    )
+    total = 0
+    for SET_, presence in spellings:
+        total += _check_population_spelling(r2, r3, lib, SET_, presence)
+    r2.need(total >= 4, "population blocks in forced variants (sync/async x presence)")
+
+
+def _check_population_spelling(r2, r3, lib, SET, presence):
+    APF = "ELEM(" + SET + ".auto_populated_fields)"
+    OPT_ATOM = M + ".input.fields[" + APF + "].proto3_optional"
+    shape = dict(presence(True), **{"LOOP:" + SET + ".auto_populated_fields": 1, M + ".client_streaming": False, M + ".server_streaming": False})
+    # a spelling that no client template uses is not judged (forcing its atoms would be vacuous)
+    in_use = any(SET in canon for is_async in (False, True) for cm in client_methods(lib, is_async) for (canon, _k) in cm.sk.uses)
+    if not in_use:
+        return 0
     import itertools
     n_blocks = 0
     for is_async in (False, True):
@@ -234,13 +278,13 @@ def check_population(report, lib: Lib):
                         r3.check(not cm.cfg.reachable(g[0], cm.stmt_of(w)), *cm.where(w), f"`{D(sk, w)[:70]}` after the population block",
                                  "the request is (re)written after the id was populated: the generated UUID can be overwritten by a flattened "
                                  "argument (e.g. request_id='') or lost with the rebuilt request; populate after the last write to `request`")
-    r2.need(n_blocks >= 4, "population blocks in forced variants (sync/async x presence)")
     # without settings nothing is populated
     for is_async in (False, True):
-        for cm in client_methods(lib, is_async, forced={SET + " is none": True}):
+        for cm in client_methods(lib, is_async, forced=presence(False)):
             stores = [s for s in own_body_walk(cm.fn) if isinstance(s, ast.Assign) and "uuid" in D(cm.sk, s.value)]
             r2.instance()
             r2.check(not stores, *cm.where(), "uuid store without settings", "no field may be populated for methods without settings")
+    return n_blocks
 
 
 def run(report: core.Report):
